@@ -25,6 +25,14 @@ class Engine(EngineBase, AccessMixin, StmtMixin, CallMixin):
                 self.use_lemma(arg, p, sfc, where)
             elif fn.startswith('unfold'):
                 self.sp_unfold(call, p, sfc)
+            elif fn == 'gset':
+                # ghost assignment: gset(obj.field, value) (ghost fields are never read by the code)
+                gv = self.ev(call.args[1], p, sfc)[0].v
+                tgt = call.args[0]
+                obj = self.ev(tgt.value, p, sfc)[0].v
+                if isinstance(obj, VUnion):
+                    obj = VRef(obj.get('ref'))
+                store_value(p, tgt.attr, obj.t, gv)
             else:
                 raise Unsupported('ghost statement ' + fn)
 
@@ -318,13 +326,13 @@ class Engine(EngineBase, AccessMixin, StmtMixin, CallMixin):
                 excl = [r != l for l in locs.get(f, [])]
                 goal = z3.ForAll([r], z3.Implies(z3.And(r > 0, r < next0, *excl), z3.Select(arr, r) == z3.Select(base, r)))
                 self.oblige(q, '%s/frame:%s' % (c.key, f), goal, 'frame', assume_after=False)
-            elif name in ('$dom', '$val', '$ord'):
+            elif name in ('$dom', '$val', '$ord', '$dq'):
                 if all_dicts:
                     continue
                 excl = [r != l for l in dict_rows]
                 goal = z3.ForAll([r, k], z3.Implies(z3.And(r > 0, r < next0, *excl), z3.Select(arr, r, k) == z3.Select(base, r, k)))
                 self.oblige(q, '%s/frame:%s' % (c.key, name), goal, 'frame', assume_after=False)
-            elif name in ('$card', '$clock'):
+            elif name in ('$card', '$clock', '$dqh', '$dqt'):
                 if all_dicts:
                     continue
                 excl = [r != l for l in dict_rows]
